@@ -36,7 +36,7 @@ func canonExpr(v ssa.Value, k map[ssa.Value]bool, depth int) string {
 		return canonExpr(x.X, k, depth+1)
 	case *ssa.BinOp:
 		a, b := canonExpr(x.X, k, depth+1), canonExpr(x.Y, k, depth+1)
-		if x.Op == token.ADD || x.Op == token.MUL {
+		if x.Op == token.ADD || x.Op == token.MUL || x.Op == token.AND || x.Op == token.OR || x.Op == token.XOR {
 			// flatten and sort
 			var terms []string
 			var flat func(v ssa.Value)
